@@ -585,7 +585,7 @@ def c13f_path(ctx, prog, impls):
         ctx.fail(o, "(program)", "anchor missing: StableHash for std::path::Path (found %d)" % len(bs))
         return
     b = ctx.touch(bs[0])
-    comp = b.calls_to(r"std::path::Path::components$")
+    comp = b.calls_to(r"std::path::Path::(components|iter)$")       # Path::iter yields the same components as OsStr
     whole = [s_ for s_ in b.calls_to(r"std::path::Path::(as_os_str|as_mut_os_str|to_str|to_string_lossy|display|as_encoded_bytes)$")
              if any(x.kind == "param" for x in df.origins_of_operand(b, s_.node["args"][0]))]
     if not comp or whole:
